@@ -435,7 +435,8 @@ def mutate(rng, t):
         return set_at(t, p, ["obj", sub[1][:i] + [[rng.choice([b"zz", b"x1", b"expiredTime", b"\xe6\xb1\x89"]), rng.choice(SCALARS)]] + sub[1][i:]])
     if kind == 6 and sub[0] == "arr":  # null / junk element
         i = rng.randrange(len(sub[1]) + 1)
-        return set_at(t, p, ["arr", sub[1][:i] + [rng.choice(SCALARS)] + sub[1][i:]])
+        junk = rng.choice(SCALARS)
+        return set_at(t, p, ["arr", sub[1][:i] + [junk] * rng.choice([1, 1, 2, 3]) + sub[1][i:]])     # also runs of adjacent junk elements
     if kind == 7:  # native name
         strs = [q for q in ps if get_at(t, q)[0] == "str"]
         if strs:
@@ -477,6 +478,11 @@ def mutate(rng, t):
 
 
 FIXED_DOCS = [
+    # runs of adjacent null elements (a cleaning loop that removes in place must not skip the element that slides into the gap)
+    '{"t":6,"v":{"list":[null,null]}}', '{"t":6,"v":{"list":[{"t":0,"v":1},null,null]}}', '{"t":6,"v":{"list":[null,null,{"t":0,"v":1}]}}',
+    '{"t":6,"v":{"list":[{"t":0,"v":1},null,null,{"t":1,"v":2.5}]}}', '{"t":6,"v":{"list":[null,null,null]}}', '{"t":6,"v":{"list":[null,{"t":0,"v":1},null,null]}}',
+    '{"t":7,"v":{"dict":{"a":{"t":6,"v":{"list":[null,null]}}}}}', '{"t":6,"v":{"list":[{"t":6,"v":{"list":[{"t":0,"v":3},null,null]}}]}}',
+    '{"t":5,"v":{"attrs":{"a":{"t":6,"v":{"list":[null,null,{"t":0,"v":1}]}}},"expr":"1"}}',
     'null', '5', '"s"', '[]', '{}', 'true', '{"t":null,"v":5}', '{"T":0,"V":7}', '{"t":0,"v":null}', '{"t":0,"v":1.0}', '{"t":0,"v":1e2}',
     '{"t":0,"v":9223372036854775808}', '{"t":0.0}', '{"t":"0"}', '{"t":1,"v":5}', '{"t":1,"v":1e300}', '{"t":1,"v":"x"}', '{"t":2,"v":5}', '{"t":2}',
     '{"t":2,"v":null}', '{"t":4,"v":{"x":1}}', '{"t":4,"v":"x"}', '{"t":5}', '{"t":5,"v":null}', '{"t":5,"v":{"attrs":null}}', '{"t":5,"v":{"attrs":5}}',
